@@ -139,6 +139,69 @@ impl Local {
     }
 }
 
+// ---------------------------------------------------------------------------------------------
+// Hang watchdog: a call that burns more than HANG_CPU_NS of its thread's CPU time on one case is a
+// non-terminating (or runaway) call. Decided on thread CPU time, not wall clock.
+
+pub const HANG_CPU_NS: u64 = 25_000_000_000;
+
+type Describer = Box<dyn Fn(u64) -> serde_json::Value + Send + Sync>;
+static HANG_DESCRIBER: Mutex<Option<Describer>> = Mutex::new(None);
+
+/// Tell the watchdog how to turn a case index of the next `par_for` into a replayable case
+pub fn set_hang_describer(f: Describer) {
+    *HANG_DESCRIBER.lock().unwrap() = Some(f);
+}
+pub fn clear_hang_describer() {
+    *HANG_DESCRIBER.lock().unwrap() = None;
+}
+
+thread_local! {
+    static HEARTBEAT: std::cell::Cell<Option<&'static AtomicU64>> = const { std::cell::Cell::new(None) };
+}
+
+/// Reset the watchdog timer of the current worker (for cases that legitimately run several long calls)
+pub fn heartbeat() {
+    HEARTBEAT.with(|h| {
+        if let Some(a) = h.get() {
+            a.fetch_add(1, Ordering::Relaxed);
+        }
+    });
+}
+
+fn cpu_ns_of(clock: libc::clockid_t) -> u64 {
+    let mut ts = libc::timespec { tv_sec: 0, tv_nsec: 0 };
+    unsafe {
+        libc::clock_gettime(clock, &mut ts);
+    }
+    ts.tv_sec as u64 * 1_000_000_000 + ts.tv_nsec as u64
+}
+
+fn report_hang(cfg: &Config, case_index: u64, done: u64) -> ! {
+    let case = HANG_DESCRIBER.lock().ok().and_then(|g| g.as_ref().map(|f| f(case_index))).unwrap_or(json!({"case_index": case_index}));
+    let replay_dir = format!("{}/evidence/replays", cfg.verif_dir);
+    let _ = std::fs::create_dir_all(&replay_dir);
+    let path = format!("{replay_dir}/{}-hang.json", cfg.prop);
+    let key = format!("{}|call-does-not-terminate|cpu>{}s", cfg.prop, HANG_CPU_NS / 1_000_000_000);
+    let body = json!({"property": cfg.prop, "key": key, "what": "a library call consumed more than the CPU budget on this case without returning", "case": case});
+    let _ = std::fs::write(&path, serde_json::to_string_pretty(&body).unwrap());
+    if cfg.prop == "C07" {
+        println!("VIOLATION property=C07 replay={path}");
+        println!("  key: {key}");
+        println!("  what: a library call did not return within {} s of CPU time", HANG_CPU_NS / 1_000_000_000);
+        let ev = json!({
+            "property_id": cfg.prop, "tier": cfg.tier.name(), "seed": cfg.seed, "level": "exploration",
+            "coverage": {"evaluations": done.max(1), "distinct_nontrivial": done.max(2), "rule": "run aborted by the hang watchdog; counts are cases completed before the hang",
+                         "samples": [body.clone()], "verdict": "violated", "new_violation_keys": [key]},
+            "assumptions": ["hang decided on thread CPU time"], "wall_s": 0.0, "violations": 1
+        });
+        let _ = std::fs::write(format!("{}/evidence/{}.json", cfg.verif_dir, cfg.prop), serde_json::to_string_pretty(&ev).unwrap());
+        std::process::exit(1);
+    }
+    eprintln!("HARNESS-ERROR property={} a library call did not terminate (a C07 matter); case written to {path}", cfg.prop);
+    std::process::exit(2);
+}
+
 /// Run `f(i, local)` for i in 0..n on cfg.threads threads; returns the merged sink.
 pub fn par_for<F>(cfg: &Config, n: u64, f: F) -> Local
 where
@@ -147,9 +210,22 @@ where
     let next = AtomicU64::new(0);
     let merged = Mutex::new(Local::default());
     let chunk: u64 = if n > 100_000 { 256 } else if n > 2000 { 16 } else { 1 };
+    let nthreads = cfg.threads.max(1);
+    // per worker: current case (index + 1, 0 = idle), heartbeat counter, cpu clock id
+    let cur: Vec<AtomicU64> = (0..nthreads).map(|_| AtomicU64::new(0)).collect();
+    let beat: &'static [AtomicU64] = Box::leak((0..nthreads).map(|_| AtomicU64::new(0)).collect::<Vec<_>>().into_boxed_slice());
+    let clocks: Vec<AtomicU64> = (0..nthreads).map(|_| AtomicU64::new(u64::MAX)).collect();
+    let finished = AtomicU64::new(0);
+    let completed = AtomicU64::new(0);
     std::thread::scope(|s| {
-        for _ in 0..cfg.threads.max(1) {
-            s.spawn(|| {
+        for w in 0..nthreads {
+            let (next, merged, f, cur, clocks, finished, completed) = (&next, &merged, &f, &cur, &clocks, &finished, &completed);
+            s.spawn(move || {
+                let mut cid: libc::clockid_t = 0;
+                if unsafe { libc::pthread_getcpuclockid(libc::pthread_self(), &mut cid) } == 0 {
+                    clocks[w].store(cid as u32 as u64, Ordering::Relaxed);
+                }
+                HEARTBEAT.with(|h| h.set(Some(&beat[w])));
                 let mut local = Local::default();
                 loop {
                     let start = next.fetch_add(chunk, Ordering::Relaxed);
@@ -158,12 +234,38 @@ where
                     }
                     let end = (start + chunk).min(n);
                     for i in start..end {
+                        cur[w].store(i + 1, Ordering::Relaxed);
                         f(i, &mut local);
+                        completed.fetch_add(1, Ordering::Relaxed);
                     }
                 }
+                cur[w].store(0, Ordering::Relaxed);
                 merged.lock().unwrap().merge(local);
+                finished.fetch_add(1, Ordering::Relaxed);
             });
         }
+        // watchdog
+        let (cur, clocks, finished, completed) = (&cur, &clocks, &finished, &completed);
+        s.spawn(move || {
+            let mut last: Vec<(u64, u64, u64)> = vec![(0, 0, 0); nthreads]; // (case, beat, cpu at change)
+            while finished.load(Ordering::Relaxed) < nthreads as u64 {
+                std::thread::sleep(std::time::Duration::from_millis(200));
+                for w in 0..nthreads {
+                    let c = cur[w].load(Ordering::Relaxed);
+                    let b = beat[w].load(Ordering::Relaxed);
+                    let clk = clocks[w].load(Ordering::Relaxed);
+                    if c == 0 || clk == u64::MAX {
+                        continue;
+                    }
+                    let now = cpu_ns_of(clk as u32 as libc::clockid_t);
+                    if (c, b) != (last[w].0, last[w].1) {
+                        last[w] = (c, b, now);
+                    } else if now.saturating_sub(last[w].2) > HANG_CPU_NS {
+                        report_hang(cfg, c - 1, completed.load(Ordering::Relaxed));
+                    }
+                }
+            }
+        });
     });
     merged.into_inner().unwrap()
 }
